@@ -1,40 +1,104 @@
-/* C13 harness: the helpers of src/strings.c on exactly sized heap blocks (ASan redzones on
- * both sides), whole block printed afterwards. */
+/* C13 harness: the helpers of src/strings.c on exactly sized blocks, whole block printed afterwards.
+ *
+ * Two placements of every block the helper is handed (destination AND source):
+ *   default   exactly sized malloc blocks (ASan redzones on both sides);
+ *   "pg" ...  the case word `pg` in front of a case puts every block at the END OF A PAGE that is followed by a
+ *             PROT_NONE page: a read or write one byte past the block is a SIGSEGV even for a routine the sanitizer
+ *             does not instrument (libc strlen/strnlen/memcpy reached through an interceptor that only checks what
+ *             it is told, hand-written assembly, a word-at-a-time loop).
+ * Sources come in two forms:
+ *   strncpy / strncat SIZE SRC DEST     SRC = the bytes of a C string, the harness appends the terminator (the block
+ *                                       is exactly the string and its NUL);
+ *   strncpyr / strncatr SIZE SRC DEST   SRC = raw cells, NOTHING appended: a source block that ends exactly where the
+ *                                       contract lets the function stop looking (it may read at most `size` bytes of it).
+ */
 #include "common.h"
+#include <sys/mman.h>
+
+static int cx_guard;            /* set for the current case by the leading word "pg" */
+
+static void *cx_alloc(size_t len)
+{
+    if (!cx_guard) {
+        return malloc(len);     /* malloc(0): a zero-length block, every access is outside it */
+    } else {
+        size_t page = (size_t) sysconf(_SC_PAGESIZE), body = (len + page - 1) / page * page, total = body + page;
+        unsigned char *base = (unsigned char *) mmap(NULL, total, PROT_READ | PROT_WRITE, MAP_PRIVATE | MAP_ANONYMOUS, -1, 0);
+        if (base == MAP_FAILED) { printf("HARNESS-ERROR:mmap"); fflush(stdout); _exit(3); }
+        /* the slack in front of the block is not part of it either: fill it with a byte that is neither a
+           terminator nor a blank, so that nothing read there looks like the end of a string */
+        memset(base, 0x5a, body);
+        if (mprotect(base + body, page, PROT_NONE)) { printf("HARNESS-ERROR:mprotect"); fflush(stdout); _exit(3); }
+        return base + body - len;
+    }
+}
+static void cx_free(void *p, size_t len)
+{
+    if (!cx_guard) free(p);
+    else {
+        size_t page = (size_t) sysconf(_SC_PAGESIZE), body = (len + page - 1) / page * page;
+        munmap((unsigned char *) p + len - body, body + page);
+    }
+}
+/* hex -> exactly sized block of cells ("??" = paint) */
+static unsigned char *cx_unhex(const char *h, size_t *n)
+{
+    size_t i, len = (h[0] == '-') ? 0 : strlen(h) / 2;
+    unsigned char *b = (unsigned char *) cx_alloc(len);
+    for (i = 0; i < len; i++) {
+        b[i] = (h[2 * i] == '?') ? lv_paint : (unsigned char) (lv_hv(h[2 * i]) * 16 + lv_hv(h[2 * i + 1]));
+    }
+    *n = len;
+    return b;
+}
+/* hex -> the string and its terminator in an exactly sized block; *n = block size */
+static char *cx_unhex_str(const char *h, size_t *n)
+{
+    size_t i, len = (h[0] == '-') ? 0 : strlen(h) / 2;
+    char *b = (char *) cx_alloc(len + 1);
+    for (i = 0; i < len; i++) b[i] = (char) (lv_hv(h[2 * i]) * 16 + lv_hv(h[2 * i + 1]));
+    b[len] = 0;
+    *n = len + 1;
+    return b;
+}
 
 static void run_case(int n, char **t)
 {
     size_t dl, sl;
-    if (n == 4 && (!strcmp(t[0], "strncpy") || !strcmp(t[0], "strncat"))) {
-        char *src = lv_unhex_str(t[2]);
-        unsigned char *dest = lv_unhex(t[3], &dl);
+    cx_guard = 0;
+    if (n >= 1 && !strcmp(t[0], "pg")) { cx_guard = 1; n--; t++; }
+    if (n == 4 && (!strcmp(t[0], "strncpy") || !strcmp(t[0], "strncat") || !strcmp(t[0], "strncpyr") || !strcmp(t[0], "strncatr"))) {
+        int raw = (t[0][7] == 'r');
+        char *src = raw ? (char *) cx_unhex(t[2], &sl) : cx_unhex_str(t[2], &sl);
+        unsigned char *dest = cx_unhex(t[3], &dl);
         spif_bool_t r = (t[0][5] == 'p')
             ? spiftool_safe_strncpy((spif_charptr_t) dest, (spif_charptr_t) src, atoi(t[1]))
             : spiftool_safe_strncat((spif_charptr_t) dest, (spif_charptr_t) src, atoi(t[1]));
         printf("%d ", r ? 1 : 0);
         lv_putcells(dest, dl, t[3]);
-        free(src); free(dest);
+        cx_free(src, sl); cx_free(dest, dl);
     } else if (n == 4 && !strcmp(t[0], "substr")) {
-        char *s = lv_unhex_str(t[3]);
+        char *s = cx_unhex_str(t[3], &sl);
         spif_charptr_t r = spiftool_substr((spif_charptr_t) s, atoi(t[1]), atoi(t[2]));
         if (!r) printf("NULL"); else { printf("S "); lv_puthex(r, strlen((char *) r)); free(r); }
-        free(s);
+        cx_free(s, sl);
     } else if (n == 2 && (!strcmp(t[0], "down") || !strcmp(t[0], "up") || !strcmp(t[0], "chomp")
                           || !strcmp(t[0], "strrev"))) {
-        unsigned char *b = lv_unhex(t[1], &dl);
+        unsigned char *b = cx_unhex(t[1], &dl);
         if (t[0][0] == 'd') spiftool_downcase_str((spif_charptr_t) b);
         else if (t[0][0] == 'u') spiftool_upcase_str((spif_charptr_t) b);
         else if (t[0][0] == 'c') spiftool_chomp((spif_charptr_t) b);
         else strrev((char *) b);
         lv_putcells(b, dl, t[1]);
-        free(b);
+        cx_free(b, dl);
     } else if (n == 3 && !strcmp(t[0], "safestr")) {
-        unsigned char *b = lv_unhex(t[2], &dl);
+        unsigned char *b = cx_unhex(t[2], &dl);
         spiftool_safe_str((spif_charptr_t) b, (unsigned short) atoi(t[1]));
         lv_putcells(b, dl, t[2]);
-        free(b);
-    } else if (n == 2 && !strcmp(t[0], "condense")) {
-        unsigned char *b = lv_unhex(t[1], &dl);
+        cx_free(b, dl);
+    } else if (n == 2 && !strcmp(t[0], "condense") && !cx_guard) {
+        /* condense_whitespace REALLOCs its argument: heap blocks only */
+        unsigned char *b = cx_unhex(t[1], &dl);
         spif_charptr_t r = spiftool_condense_whitespace((spif_charptr_t) b);
         sl = strlen((char *) r);
         lv_puthex(r, sl + 1);
